@@ -603,6 +603,15 @@ fn gen_c18(rng: &mut Rng, tier: &str, emit: Emit) {
 }
 
 fn gen_c19(rng: &mut Rng, tier: &str, emit: Emit) {
+    // the filling constructors on every type, every boundary length (0 included), both bits
+    for ty in TYPES {
+        for n in lattice_lengths(ty, 300) {
+            emit(line("zeros", &[ty.tag, &s(n)]));
+            emit(line("ones", &[ty.tag, &s(n)]));
+            emit(line("repeat", &[ty.tag, "0", &s(n)]));
+            emit(line("repeat", &[ty.tag, "1", &s(n)]));
+        }
+    }
     for ty in TYPES.iter().filter(|t| t.kind == Kind::F) {
         let c = ty.cap().unwrap();
         for n in [c - 1, c, c + 1, c + ty.w, c + 1000] {
@@ -649,6 +658,11 @@ fn gen_c19(rng: &mut Rng, tier: &str, emit: Emit) {
 }
 
 fn gen_c11(rng: &mut Rng, tier: &str, emit: Emit) {
+    // the two error values as text (Display and Debug; the harness itself reports errors through Debug)
+    emit(line("errdisplay", &["cap", "0"]));
+    for n in [0usize, 1, 9, 10, 127, 12345, usize::MAX] {
+        emit(line("errdisplay", &["fmt", &s(n)]));
+    }
     // Bit <-> bool / integer
     for t in ["u8", "u16", "u32", "u64", "u128", "us"] {
         for x in ["0", "1", "2", "80", "ff"] {
@@ -720,12 +734,21 @@ fn gen_c12(rng: &mut Rng, tier: &str, emit: Emit) {
             if let Some(c) = tt.cap() {
                 lens.extend([c.saturating_sub(1), c, c + 1].iter().filter(|x| **x <= lim));
             }
+            // the by-value forms that exist are separately written bodies
+            let byval = (tt.kind != Kind::F || st.kind != Kind::F) && tt.tag != st.tag;
             for len in lens {
-                emit(line("convert", &[tt.tag, &gen_vec_len(rng, st, len)]));
+                let v = gen_vec_len(rng, st, len);
+                emit(line("convert", &[tt.tag, &v]));
+                if byval {
+                    emit(line("convertv", &[tt.tag, &v]));
+                }
             }
             for _ in 0..scale(tier, 10) {
                 let v = any_vec(rng, st, MAXD, emit);
                 emit(line("convert", &[tt.tag, &v]));
+                if byval {
+                    emit(line("convertv", &[tt.tag, &v]));
+                }
             }
         }
     }
